@@ -593,6 +593,6 @@ func listNames(f afero.Fs, p string) ([]string, error) {
 func init() {
 	register(&Engine{Name: "readonly", Props: []string{"C15"}, Cases: roCases, Run: roRun})
 	propMeta["C15"] = PropMeta{Level: "exploration",
-		Rule:        "per case a tape+index is populated by a generated history through a writable instance; a read-only instance (variant A: write backend and cache factory present, variant B: none, as `serve http` composes it; every fifth case without an index so that it is built on open) and a writable twin are opened over copies; then 20-60 random calls mixing every mutating method, OpenFile with every flag combination followed by Write/WriteAt/WriteString/Truncate on the handle, and read calls; after every call sha-256(tape) and the full row dump are compared with their values after Initialize, mutators must fail with a permission error, read results must equal the twin's; non-trivial = at least 3 entries on the tape and at least 10 mutating calls; distinct = distinct (configuration, variant, call list); argument shapes include '', ' ', '.', './' as names (also as second argument of Rename / Symlink); a fifth of the cases open over an index that is OLDER than the tape (it reflects only the first half of the records): such an index must be left exactly as it is (rows compared from before the open)",
+		Rule:        "per case a tape+index is populated by a generated history through a writable instance; a read-only instance (variant A: write backend and cache factory present, variant B: none, as `serve http` composes it; every fifth case without an index so that it is built on open) and a writable twin are opened over copies; then 20-60 random calls mixing every mutating method, OpenFile with every flag combination followed by Write/WriteAt/WriteString/Truncate on the handle, and read calls; after every call sha-256(tape) and the full row dump are compared with their values after Initialize, mutators must fail with a permission error, read results must equal the twin's; non-trivial = at least 3 entries on the tape and at least 10 mutating calls; distinct = distinct (configuration, variant, call list); argument shapes include '', ' ', '.', './' as names (also as second argument of Rename / Symlink); a fifth of the cases open over an index that is OLDER than the tape (it reflects only the first half of the records): such an index must be left exactly as it is (rows compared from before the open); plain tapes carry two members whose recorded logical size disagrees with their content; two fifths of the read-only instances sit behind the memory / directory caching composition (there: every mutating call must fail, kind / size / content compared with the twin)",
 		Assumptions: []string{"building a missing index during Initialize is the permitted change; the tape hash is pinned across it too", "OpenFile of a missing path must fail (any error class) and create nothing"}}
 }
